@@ -815,7 +815,7 @@ fn c09_mode(args: &Args, run: &Run, authoritative_only: bool, salt: u64) -> Resu
         no_reply_confirmed: AtomicU64::new(0),
         stop: AtomicBool::new(false),
     });
-    let n_random = args.size(2_500, 400_000) as usize;
+    let n_random = args.size(2_500, 150_000) as usize;
     let sweep = header_sweep(&names[1]);
     let mode_name = if authoritative_only { "authoritative-only" } else { "recursion-offered" };
 
